@@ -120,7 +120,9 @@ CHECKS = {
              "resume, clear; depth 5 quick / 7 thorough) checks after every operation that the view equals the retained entries matching the current filter, in "
              "arrival order, no duplicates; plus every history prefix . set_filter(narrowing) . (maxlen+1..maxlen+2 logs, every kind sequence) . "
              "set_filter(wider) with prefixes {none, clear, log.clear, pause.resume, 3 logs} on ring buffer 2, executed without state deduplication (2,160 "
-             "histories); state identity includes the bound of every entry container. Around it: every depth<=2 expression tree and every unparenthesised chain up to length 4 over 7 leaf filters x 11 "
+             "histories); state identity includes the bound of every entry container. Log events are delivered through every public entry: logger.log_* (ring "
+             "buffers 1-3), add_log_entry directly, and a WrappingMessageLogger fan-out with a second logger whose pause/resume is in the alphabet; the view "
+             "invariant is checked for each logger. Around it: every depth<=2 expression tree and every unparenthesised chain up to length 4 over 7 leaf filters x 11 "
              "entries x both short-circuit modes (root vs children vs denotation); every operator x literal kind x selector shape x 12 entries against a plain "
              "type-table reference, also through add_log_entry/set_filter; freeze/thaw and export/import of one message per template plus EQ and HTTP entries.",
         note="Chains follow the grammar as written (right-nested, no precedence, ! binds to the next term); a bare selector means presence/truthiness; the verdict is "
@@ -133,7 +135,8 @@ CHECKS = {
         text="Every history over {endpoint send reliable/unreliable with appended acks for none/oldest/newest/all pending receipts, forwarded or dropped; standalone "
              "PacketAck; endpoint retransmission; proxy injection reliable/unreliable; addon take() of a reliable packet with its copy re-sent at once or after "
              "any later events, and take() of an already finalized packet (after its own drop_message, or after its own forward) with the copy re-sent; "
-             "the 'all pending' ack choice in receipt, descending and rotated order (appended, on dropped packets, in PacketAck bodies); StartPingCheck with OldestUnacked sent or unsent; tick short/past/exhaust} per direction is executed on a real ProxiedCircuit "
+             "the 'all pending' ack choice in receipt, descending and rotated order (appended, on dropped packets, in PacketAck bodies); a standalone "
+             "PacketAck carrying both ack forms, every split of the <=3 pending receipts into body, appendix or both; StartPingCheck with OldestUnacked sent or unsent; tick short/past/exhaust} per direction is executed on a real ProxiedCircuit "
              "(real deserializer in, real serializer out) to depth 5 with <=2 deviations and depth 4 with <=3 (quick), plus 5/<=3, 6/<=2 and 7/0 (thorough); the same "
              "histories to depth 3 (4) are replayed through InterceptingLLUDPProxyProtocol.datagram_received with a real Session, a drop addon and the attempt_resends task and must "
              "emit identical datagrams. The oracle reads only the decoded datagrams handed to the transport and the futures of send_reliable, one clause per sentence.",
@@ -179,7 +182,8 @@ CHECKS = {
         technique="explicit-state BFS by history replay over the real SessionManager/Session/ProxiedRegion/MITMProxyEventManager + exhaustive enumeration of seed request/response cases",
         text="BFS over the real objects in a 2-session x 2-region universe against a plain list-of-grants reference model (three stated alphabets: full on the first "
              "region, full on the last region in resolution order, lite across all four); after every transition every known URL (plus a suffix) is resolved at "
-             "manager, session and region level and every cap name is looked up in every region. The Seed request/response rewriting is additionally enumerated "
+             "manager, session and region level and every cap name is looked up in every region. A repeated-grants family grants one name 8x with distinct URLs per kind (NORMAL via update_caps / Seed response, WRAPPER, PROXY_ONLY then NORMAL, 1..8 "
+             "one-shots consumed oldest-/newest-first per API) with the full resolve-everything sweep after each grant. The Seed request/response rewriting is additionally enumerated "
              "exhaustively over viewer lists x simulator grants behind 9 prefixes through the real event manager.",
         note="The simulator grants only names in the upstream request; Seed URLs unique per region; a live one-shot URL is not registered again; a URL extending several "
              "live grants may resolve to any of them ('extends' is textual), except wrapper URLs which must each resolve to their own region and session; an exception "
@@ -264,7 +268,8 @@ CHECKS = {
         technique="explicit-state BFS (hmc.explore.bfs, history replay, virtual asyncio loop) over object-update / kill / request histories against an independent dict scene-graph model",
         text="BFS over histories of object updates (full, compressed, terse, cached hit/miss/viewer-cache hit), property replies, single and multi kills, object "
              "requests, region teardown/re-track, the cache-miss timer and deferred future callbacks, delivered through the real UDP codec to a real proxy Session "
-             "with two regions. After every event the local-ID and full-ID indices, parent/child/orphan links, the avatar view, swallowed handler exceptions and "
+             "with two regions; the viewer object cache is a chain of two per-viewer caches (the announced entry behind a stale entry of the first cache in every "
+             "search; a cache sub-alphabet repeats the cached-update events with the chain fresh-first, disjoint and with equal entries). After every event the local-ID and full-ID indices, parent/child/orphan links, the avatar view, swallowed handler exceptions and "
              "request futures are compared with an independent scene-graph model. The scene-graph sub-alphabet for one region and the request sub-alphabet for one "
              "local ID are searched to saturation; the other searches are bounded (depth 3-6, at most 3 deviations), ~1.2 million transitions in the thorough tier.",
         note="Universe of 3 full IDs (one avatar), 3 local IDs per region (2 in two-region searches), 2 regions; local-ID and region symmetry reductions; at most 2 "
